@@ -68,7 +68,8 @@ def _C01():
 
 
 def _C02():
-    return {"arms": [_hist("C02", 30000, 1200000)], "level": "exploration", "rule": RULE_HIST,
+    from props import linkpy
+    return {"arms": [_hist("C02", 30000, 1200000), Arm(linkpy, "linkpy", 4000, 150000, label="S-LINK/py control arm")], "level": "exploration", "rule": RULE_HIST,
             "assumptions": ASSUME_REF, "real_stub": REAL_STUB_PY}
 
 
